@@ -189,24 +189,40 @@ def merge_strictness(ctx, rule='C06-R3'):
                   f'too-close test {label}: {why}; expected diff(height_base) < min_sep(base of the upper group), with '
                   'missing values (first row) counted as not too close',
                   instance=f'merge: strict "<" against the separation of the upper group ({label})')
-    # bases are sorted ascending with a gap-free index before diff() is taken
-    sorts = [e for e in fx.own_events(MERGE) if e.kind == 'mutcall' and e.note == 'sort_values' or
-             (e.kind == 'assign' and tag(e.value) == 'mcall' and e.value[2] == 'sort_values')]
-    ok_s = False
-    for e in sorts:
-        c = e.call if e.kind == 'mutcall' else e.value
-        by = c[3][0] if c[3] else dict(c[4]).get('by')
-        if by == C('height_base') and dict(c[4]).get('ascending', T.TRUE) == T.TRUE:
-            ok_s = True
-    ctx.check(ok_s, rule, MERGE, f.node.name, f.loc(), 'preliminary groups are not sorted by ascending base before '
-              'adjacent differences are taken', instance='merge: groups sorted by base first')
-    resets = [e for e in fx.own_events(MERGE) if e.loops and (e.kind == 'mutcall' and e.note == 'reset_index')]
-    ctx.check(bool(resets), rule, MERGE, f.node.name, f.loc(),
+    # bases are sorted ascending with a gap-free index before diff() is taken; the index is re-made
+    # gap-free after every drop inside the loop (judged on the derivation of the local table, so that
+    # in-place calls and re-binding chains are the same thing)
+    from sa.rules.tablemodel import flatten
+    tbl = None
+    for nm, val in s.env.items():
+        if tag(val) == 'loopres' and val[1] == lp.id and any(
+                o.kind == 'call' and o.name == 'drop' for o in flatten(val[4], stop_at_lphi=True)):
+            tbl = val
+    ok_s = ok_r = ok_loop = False
+    if tbl is not None:
+        before = flatten(tbl[3])                      # newest first
+        names = [o.name for o in before if o.kind == 'call']
+        for i, o in enumerate(before):
+            if o.kind == 'call' and o.name == 'sort_values':
+                by = o.args[0] if o.args else dict(o.kws).get('by')
+                ok_s = by == C('height_base') and dict(o.kws).get('ascending', T.TRUE) == T.TRUE
+                later = [x for x in before[:i] if x.kind == 'call']
+                ok_r = any(x.name == 'reset_index' and dict(x.kws).get('drop') == T.TRUE for x in later) and \
+                    not any(x.name in ('sort_values', 'sample', 'drop', 'filter') for x in later)
+                break
+        body = flatten(tbl[4], stop_at_lphi=True)
+        for i, o in enumerate(body):
+            if o.kind == 'call' and o.name == 'drop':
+                ok_loop = any(x.kind == 'call' and x.name == 'reset_index' and dict(x.kws).get('drop') == T.TRUE
+                              for x in body[:i])
+    ctx.check(ok_s and ok_r, rule, MERGE, f.node.name, f.loc(), 'preliminary groups are not sorted by ascending base '
+              '(and re-indexed) before adjacent differences are taken', instance='merge: groups sorted by base first')
+    ctx.check(ok_loop, rule, MERGE, f.node.name, f.loc(),
               'the index is not reset after a group is dropped inside the loop (idx - 1 would address the wrong row)',
               instance='merge: index gaps removed after each drop')
     # sibling: the layer re-merge uses the same strictness
     nf = p.func(NCOMP, rule)
-    evs = fx.own_events(NCOMP)
+    evs = fx.deep_events(NCOMP)
     merges = [e for e in evs if e.kind == 'store' and e.loops and tag(e.target) == 'mask']
     ctx.floor(rule, 'component re-merge stores', len(merges), 1)
     for e in merges:
@@ -230,7 +246,7 @@ def min_sep_lookup(ctx, rule='C06-R4'):
     p = ctx.project
     f = p.func(MINSEP, rule)
     ctx.saw(f)
-    evs = fx.own_events(MINSEP)
+    evs = fx.deep_events(MINSEP)
     raises = [e for e in evs if e.kind == 'raise']
     want = T.lin_cmp(('cmp', 'ne', ('call', ('g', 'builtins.len'), (LIMS,), ()),
                       ('bin', '-', ('call', ('g', 'builtins.len'), (VALS,), ()), C(1))))
